@@ -186,6 +186,9 @@ func genOutboxCase(g *prng.R, modes, protos []string) c03Case {
 			if g.Chance(1, 3) {
 				body["attributedTo"] = A{alice(), M{"type": "Person", "id": pool[1%len(pool)]}}
 			}
+			if g.Chance(1, 6) {
+				body["attributedTo"] = A{body["attributedTo"], M{"type": "Person", "name": "Sally"}}
+			}
 		}
 		if g.Chance(1, 4) {
 			body["published"] = pick(g, "2021-02-03T04:05:06Z", "2021-02-03T04:05:06+02:00", "1999-12-31T23:59:59Z")
@@ -240,6 +243,11 @@ func genOutboxCase(g *prng.R, modes, protos []string) c03Case {
 					} else {
 						attr = append(attr, a)
 					}
+				}
+				if g.Chance(1, 8) {
+					// the vocabulary's own example of an attribution: a
+					// person who is named, without an id
+					attr = append(attr, M{"type": "Person", "name": "Sally"})
 				}
 				if len(attr) == 1 && g.Bool() {
 					o["attributedTo"] = attr[0]
@@ -524,7 +532,7 @@ func init() {
 				if body, isM := cs.Sc.Requests[0].Body.(M); isM && (cs.Mode == "post" || cs.Mode == "send") && i%10 == 7 {
 					// the same post under an aliased vocabulary: members
 					// named as:bto / as:bcc are bto / bcc all the same
-					cs.Sc.Requests[0].Body = aliasDoc(body)
+					cs.Sc.Requests[0].Body = aliasDocWith(body, []string{"as", "as", "a/s", "x/"}[(i/10)%4])
 					cs.Sc.Name += ".aliased"
 				}
 				if i < 2 {
@@ -576,7 +584,7 @@ func init() {
 				if i%10 == 7 {
 					for k, v := range cs.Sc.Store {
 						if m, isM := v.(M); isM && k == cs.Sc.Requests[0].URL {
-							cs.Sc.Store[k] = aliasDoc(m)
+							cs.Sc.Store[k] = aliasDocWith(m, []string{"as", "a/s", "as", "x/"}[(i/10)%4])
 							cs.Sc.Name += ".aliased"
 						}
 					}
